@@ -574,10 +574,76 @@ impl Analyzer
 				{
 					unreachable!()
 				}
-				ValueType::Pointer { .. } => Ok(value_type),
-				ValueType::View { .. } => Ok(value_type),
+				ValueType::Pointer { ref deref_type } =>
+				{
+					self.found_named_lengths(
+						name_of_container,
+						name_of_member,
+						deref_type,
+					)?;
+					Ok(value_type)
+				}
+				ValueType::View { ref deref_type } =>
+				{
+					self.found_named_lengths(
+						name_of_container,
+						name_of_member,
+						deref_type,
+					)?;
+					Ok(value_type)
+				}
 			},
 			Err(poison) => Err(poison),
+		}
+	}
+
+	// A pointer or view does not contain the structures that it refers to,
+	// but the length of an array is part of its type even behind a pointer,
+	// so a constant that names such a length must be resolved before the
+	// container is.
+	fn found_named_lengths(
+		&mut self,
+		name_of_container: &Identifier,
+		name_of_member: Option<&Identifier>,
+		value_type: &ValueType,
+	) -> Result<(), Poison>
+	{
+		match value_type
+		{
+			ValueType::ArrayWithNamedLength {
+				element_type,
+				named_length,
+			} =>
+			{
+				self.found_named_lengths(
+					name_of_container,
+					name_of_member,
+					element_type,
+				)?;
+				self.found_container_1(
+					name_of_container,
+					name_of_member,
+					named_length.clone(),
+				)?;
+				Ok(())
+			}
+			ValueType::Array { element_type, .. }
+			| ValueType::Slice { element_type }
+			| ValueType::SlicePointer { element_type }
+			| ValueType::EndlessArray { element_type }
+			| ValueType::Arraylike { element_type } => self
+				.found_named_lengths(
+					name_of_container,
+					name_of_member,
+					element_type,
+				),
+			ValueType::Pointer { deref_type }
+			| ValueType::View { deref_type } => self.found_named_lengths(
+				name_of_container,
+				name_of_member,
+				deref_type,
+			),
+			_ => Ok(()),
 		}
 	}
 
